@@ -69,6 +69,9 @@ abstract_term!(term1, 1);
 abstract_term!(term2, 2);
 abstract_term!(term3, 3);
 const ABSTRACT_TERMS: &'static [(f32, EvaluationFunction)] = &[(1.0, term0), (0.8, term1), (1.0, term2), (0.2, term3)];
+/// quick tier: one term with a non-trivial weight (each float multiplication doubles the solver's work; oddness of
+/// the weighting is its own obligation, c13_mul_f32_is_odd)
+const ABSTRACT_TERMS_QUICK: &'static [(f32, EvaluationFunction)] = &[(0.8, term1)];
 
 #[kani::proof]
 #[kani::unwind(10)]
@@ -85,6 +88,9 @@ fn antisymmetry_obligation(max_king_neighbours: u32) {
     unsafe {
         HAS_LEGAL_MOVE = kani::any();
         ORACLE = kani::any();
+        if max_king_neighbours == 0 {
+            ORACLE[1] = 0; // concretely no candidate king step: the shortcut loop is pruned by symbolic execution
+        }
         kani::assume(ORACLE[1].count_ones() <= max_king_neighbours);
         TERMS = kani::any();
         let mut i = 0;
@@ -107,7 +113,7 @@ fn antisymmetry_obligation(max_king_neighbours: u32) {
         weechess_core::Clock { halfmove_clock: 0, fullmove_number: 1 },
     );
     let depth: usize = kani::any();
-    let evaluator = Evaluator { fns: ABSTRACT_TERMS };
+    let evaluator = Evaluator { fns: if max_king_neighbours == 0 { ABSTRACT_TERMS_QUICK } else { ABSTRACT_TERMS } };
     let w = evaluator.evaluate(&state, Color::White, depth);
     let b = evaluator.evaluate(&state, Color::Black, depth);
     assert!(w == -b);
@@ -123,7 +129,7 @@ fn antisymmetry_obligation(max_king_neighbours: u32) {
 #[kani::stub(weechess_core::Board::colored_attacks, stub_colored_attacks)]
 #[kani::stub(weechess_core::AttackGenerator::compute_king_attacks, stub_king_attacks)]
 fn c13_evaluate_is_antisymmetric_quick() {
-    antisymmetry_obligation(1)
+    antisymmetry_obligation(0)
 }
 
 // ---- (c) mirror invariance of the real terms ----------------------------------------------------------------------------
